@@ -401,7 +401,9 @@ func c20Worker(args []string) int {
 	lo, _ := strconv.ParseInt(args[1], 10, 64)
 	hi, _ := strconv.ParseInt(args[2], 10, 64)
 	em := core.NewWorkerEmit()
+	em.Watch(20 * time.Second)
 	for i := lo; i < hi; i++ {
+		em.Begin(i)
 		src := sp.gen(i)
 		why, class, parsed := c20Check(src)
 		if !parsed {
